@@ -10,12 +10,28 @@ from gymnasium.spaces import Discrete, MultiDiscrete
 from abmarl.sim import PrincipleAgent, Agent, DynamicOrderSimulation
 
 
+def encode_obs(o):
+    """[ep, t, a, reads] as one integer (Discrete observation spaces, OpenSpiel)"""
+    ep, t, a, reads = o
+    assert ep < 1000 and t < 100 and a < 10 and reads < 100
+    return ((ep * 100 + t) * 10 + a) * 100 + reads
+
+
+def decode_obs(x):
+    x = int(x)
+    x, reads = divmod(x, 100)
+    x, a = divmod(x, 10)
+    ep, t = divmod(x, 100)
+    return [ep, t, a, reads]
+
+
 def accr(a, t, act):
     return 1 + ((3 * a + 5 * t + ((2 + abs(int(act))) if act is not None else 0)) % 4)
 
 
 class StubSim(DynamicOrderSimulation):
-    def __init__(self, script):
+    def __init__(self, script, discrete=False):
+        self.discrete = discrete
         self.n = script["n"]
         self.learning = list(script["learning"])
         self.done_at = list(script["doneAt"])
@@ -26,7 +42,9 @@ class StubSim(DynamicOrderSimulation):
         agents = {}
         for i, aid in enumerate(self.ids):
             if self.learning[i]:
-                agents[aid] = Agent(id=aid, observation_space=MultiDiscrete([1000] * 4),
+                agents[aid] = Agent(id=aid,
+                                    observation_space=(Discrete(10 ** 8) if discrete
+                                                       else MultiDiscrete([1000] * 4)),
                                     action_space=Discrete(10))
             else:
                 agents[aid] = PrincipleAgent(id=aid)
@@ -68,6 +86,8 @@ class StubSim(DynamicOrderSimulation):
         a = self.idx[agent_id]
         o = [self.ep, self.t, a, self.reads[a]]
         self.reads[a] += 1
+        if self.discrete:
+            return encode_obs(o)
         return o
 
     def get_reward(self, agent_id, **kwargs):
